@@ -36,10 +36,23 @@ def fenceOk : Option IntOrPct → Bool
   | some (.pct p) => decide (0 ≤ p)
   | _ => true
 
-/-- `I`: sizes are non-negative, available pods are pods, fenceposts are non-negative. -/
-def inv (s : State) : Bool :=
+/-- sizes are non-negative, available pods are pods, fenceposts are non-negative -/
+def invCore (s : State) : Bool :=
   decide (0 ≤ s.replicas) && fenceOk s.maxSurge && fenceOk s.maxUnavailable &&
   s.olds.all rsOk && s.new.all rsOk
+
+/-- a max-replicas annotation, when present, is non-negative -/
+def annoOk (r : RS) : Bool :=
+  match r.maxAnno with
+  | none => true
+  | some m => decide (0 ≤ m)
+
+/-- bookkeeping read by the proportional scaling: status.replicas and max-replicas annotations ≥ 0 -/
+def invAnno (s : State) : Bool :=
+  decide (0 ≤ s.statusReplicas) && s.olds.all annoOk && s.new.all annoOk
+
+/-- `I`: the inductive invariant. -/
+def inv (s : State) : Bool := invCore s && invAnno s
 
 /-! ### scope and guards -/
 
